@@ -6,5 +6,10 @@ CHECKS = {
   note="Trusted: Coq kernel + vm_compute, extraction (ExtrOcamlBasic), the regex table extractor, the harness. The hand-written model is validated, not proved, against the Rust code (exhaustive to length 4-7, random beyond). Lower-casing is ASCII in the model; the fact that this is equivalent for the falsy literals is checked for all scalar values each run.",
   technique="Coq proof of an executable model (induction with a state invariant) + regenerated table lemma + extracted-model/implementation differential correspondence",
   ref="7/C06"),
+ "C07": dict(
+  text="PARTIAL. Proof part: machine-checked totality / no-panic theorems for the modelled fragment (listed in evidence under modelled_and_proved; it grows as the other properties' models land). The remainder of the library (~200 commands) is NOT modelled: it is covered by a supporting exploration (arbitrary text at parser level, random straight-line command sequences with typed argument pools, every shard in a child process under a watchdog and an address-space limit so that panics, aborts and hangs are observed). The exploration is testing and never stands in for a theorem. Open findings F8, F12, F13, F17 are re-run as witnesses on every check and printed as KNOWN-FINDING; exactly their classes are excluded from generation.",
+  note="Trusted: Coq kernel for the theorems; for the exploration the harness, the process isolation and the generator. Memory, stack and thread behaviour are the runtime's and are not modelled. Commands that block, leave the process, need the network or write/delete files are excluded (list in evidence).",
+  technique="Coq totality theorems for modelled commands + process-isolated differential exploration (testing) for the unmodelled library; known-finding witnesses",
+  ref="7/C07"),
 }
 NOT_YET = {}
